@@ -18,13 +18,16 @@ TECH = "TLA+ spec tla/ClientLib.tla checked by TLC + conformance (schedules from
 # must yield a counterexample to this property, simulate depth)
 FAMILIES = {
     "C17": dict(cfgs=[("MC_ClientLib_C17.cfg", 8, 9)], devs=["NoDupPublish", "PubrelDropped", "NilOnTerminate"],
-                quick_sample=900, sim=(400, 30)),
-    "C27": dict(cfgs=[("MC_ClientLib_C27.cfg", 8, 9)], devs=[], quick_sample=700, sim=(400, 30), repeat=3, vectors=True),
-    "C28": dict(cfgs=[("MC_ClientLib_C28.cfg", 5, 6), ("MC_ClientLib_C28ka.cfg", 5, 6)], devs=["KaSync"],
-                devcfg="MC_ClientLib_C28ka.cfg", quick_sample=900, sim=(400, 25)),
-    "C33": dict(cfgs=[("MC_ClientLib_C33.cfg", 7, 9), ("MC_ClientLib_C33b.cfg", 7, 8)], devs=["KaSync"],
-                devcfg="MC_ClientLib_C33.cfg", quick_sample=900, sim=(400, 30)),
-    "C06": dict(cfgs=[("MC_ClientLib_C06.cfg", 8, 9)], devs=["SharedStore"], quick_sample=600, sim=(200, 25)),
+                devsigs=["C17/retransmit-no-dup", "C17/pubrel-unanswered", "C17/publish-result-vs-ack"],
+                devmax=7, quick_sample=600, sim=(400, 30)),
+    "C27": dict(cfgs=[("MC_ClientLib_C27.cfg", 7, 8)], devs=[], quick_sample=400, sim=(400, 30), repeat=2, vectors=True),
+    "C28": dict(cfgs=[("MC_ClientLib_C28.cfg", 5, 6), ("MC_ClientLib_C28ka.cfg", 5, 6)], devs=["KaSync", "NilOnTerminate"],
+                devsigs=["C28/goroutines-after-end"],
+                devcfg="MC_ClientLib_C28ka.cfg", quick_sample=600, sim=(400, 25)),
+    "C33": dict(cfgs=[("MC_ClientLib_C33.cfg", 7, 9), ("MC_ClientLib_C33b.cfg", 7, 8), ("MC_ClientLib_C33c.cfg", 7, 8)], devs=["KaSync"],
+                devsigs=["C33/keepalive-ping-while-not-active"],
+                devcfg="MC_ClientLib_C33.cfg", quick_sample=600, sim=(400, 30)),
+    "C06": dict(cfgs=[("MC_ClientLib_C06.cfg", 8, 9)], devs=["SharedStore"], devsigs=["C06/pubrec-missing"], devmax=6, quick_sample=500, sim=(200, 25)),
 }
 # client halves served from the runs of these families
 HALF = {"C06": ["C06"], "C16": ["C17"], "C23": ["C17", "C28", "C33"], "C25": ["C28", "C17"], "C18": ["C33"]}
@@ -172,7 +175,8 @@ def run_batch(binary, scs, tag):
 
 def validate(lines, tag):
     txt = "\n".join(json.dumps(l) for l in lines) + "\n"
-    res = vlib.tlc("Trace_ClientLib", "Trace_ClientLib.cfg", workers=1, files={"trace.ndjson": txt}, timeout=1200)
+    res = vlib.tlc("Trace_ClientLib", "Trace_ClientLib.cfg", workers=1, files={"trace.ndjson": txt}, timeout=1200,
+                   javaopts="-Xmx4g -XX:ParallelGCThreads=2")
     got = vlib.tlc_printed(res, "RESULT:")
     if not got:
         raise vlib.Inconclusive("trace validation (%s) did not finish:\n%s" % (tag, res["out"][-3000:]))
@@ -192,19 +196,26 @@ def execute(binary, scs, tag):
     t0 = time.time()
     outs = vlib.pmap(lambda ip: run_batch(binary, ip[1], "%s-%d" % (tag, ip[0])), list(enumerate(parts)))
     t1 = time.time()
-    vres = vlib.pmap(lambda ip: validate(ip[1][0], "%s-%d" % (tag, ip[0])) if ip[1][0] else None, list(enumerate(outs)), n=min(8, vlib.NCPU))
+    # few, large TLC runs (JVM start-up dominates small ones)
+    all_lines = [l for lines, _ in outs for l in lines]
+    bytr = {}
+    for l in all_lines:
+        bytr.setdefault(l["tr"], []).append(l)
+    trs = list(bytr)
+    njv = max(1, min(6, len(all_lines) // 2500 + 1))
+    groups = [[l for tr in part for l in bytr[tr]] for part in vlib.chunks(trs, njv)] if trs else []
+    vres = vlib.pmap(lambda ip: validate(ip[1], "%s-%d" % (tag, ip[0])), list(enumerate(groups)), n=njv)
     t2 = time.time()
     agg = dict(viol=[], lines=0, traces=0, judged=0, soft=0, softl=[], cov=set(), crashes=[], all_lines={}, t_drive=t1 - t0, t_judge=t2 - t1)
-    for (lines, crashes), d in zip(outs, vres):
+    for lines, crashes in outs:
         agg["crashes"] += crashes
-        for l in lines:
-            agg["all_lines"].setdefault(l["tr"], []).append(l)
-        if d:
-            agg["viol"] += d["viol"]
-            for k in ("lines", "traces", "judged", "soft"):
-                agg[k] += d[k]
-            agg["softl"] += d.get("softl", [])
-            agg["cov"] |= set(d["cov"])
+    agg["all_lines"] = bytr
+    for d in vres:
+        agg["viol"] += d["viol"]
+        for k in ("lines", "traces", "judged", "soft"):
+            agg[k] += d[k]
+        agg["softl"] += d.get("softl", [])
+        agg["cov"] |= set(d["cov"])
     return agg
 
 
@@ -224,11 +235,12 @@ def design_and_generate(fam, tier, notes):
             num, depth = F["sim"]
             jobs.append(("sim", cfgname, patch_cfg(text, maxev=depth),
                          dict(workers=1, timeout=600, simulate="num=%d" % num, depth=depth + 2, extra=("-seed", str(seed)))))
-    for d in F.get("devs", []):
+    if F.get("devs"):
+        # all deviations of the family switched on in one run; -continue collects every signature
         cfgname = F.get("devcfg", F["cfgs"][0][0])
-        q = [c for c in F["cfgs"] if c[0] == cfgname][0][1]
-        jobs.append(("dev:" + d, cfgname, patch_cfg(read_cfg(cfgname), maxev=q + 1, dev=[d]),
-                     dict(workers=2, timeout=600, extra=("-continue",), javaopts="-Xmx3g")))
+        q = F.get("devmax", [c for c in F["cfgs"] if c[0] == cfgname][0][1])
+        jobs.append(("dev", cfgname, patch_cfg(read_cfg(cfgname), maxev=q, dev=F["devs"]),
+                     dict(workers=4, timeout=600, extra=("-continue",), javaopts="-Xmx4g")))
 
     def go(job):
         kind, cfgname, text, kw = job
@@ -256,16 +268,19 @@ def design_and_generate(fam, tier, notes):
             notes.append("%s: %d random walks (depth <= %d, seed %d)" % (cfgname, len(hs), F["sim"][1], seed))
             scheds += [(conf, h, "walk") for h in hs]
         else:
-            d = kind[4:]
             bad = parse_hists(res, "BAD:")
-            if not bad:
-                raise vlib.Inconclusive("deviation %s yields no counterexample in %s (vacuous deviation):\n%s" % (d, cfgname, res["out"][-1500:]))
             sigs = {}
             for b in bad:
-                sigs.setdefault(b["sig"], b["hist"])   # BFS: the first one per signature is a shortest one
-            devhits[d] = sorted(sigs)
-            scheds += [(conf, h, "dev:%s:%s" % (d, sg)) for sg, h in sigs.items()]
-            notes.append("deviation %s: TLC finds %s" % (d, ", ".join(sorted(sigs))))
+                sigs.setdefault(b["sig"], []).append(b["hist"])
+            need = set(F.get("devsigs", []))
+            if not bad or not need <= set(sigs):
+                raise vlib.Inconclusive("deviations %s: TLC finds %s, expected counterexamples for %s (vacuous deviation):\n%s"
+                                        % (F["devs"], sorted(sigs), sorted(need), res["out"][-1500:]))
+            devhits = {sg: len(hs) for sg, hs in sigs.items()}
+            for sg, hs in sigs.items():
+                hs.sort(key=len)
+                scheds += [(conf, h, "dev:%s" % sg) for h in hs[:3]]   # shortest counterexamples per signature
+            notes.append("deviations %s: TLC finds counterexamples %s" % ("+".join(F["devs"]), ", ".join("%s x%d" % kv for kv in sorted(devhits.items()))))
     return states, trans, scheds, devhits
 
 
@@ -364,7 +379,7 @@ def run_family(fam, tier, want_props):
                        rets=[(r["call"], r["err"]) for r in l["rets"]], cbs=[c["h"] for c in l["cbs"]], st=l["st"]) for l in ls[:12]]))
     return dict(fam=fam, tier=tier, states=states, transitions=trans, notes=notes, devhits=devhits, devrepro=devrepro,
                 violations=viols, gaps=gaps, traces=agg["traces"], lines=agg["lines"], judged=agg["judged"], soft=agg["soft"],
-                softl=agg["softl"][:10], cov=sorted(agg["cov"]), samples=samples, n_sched=len(scs), n_generated=len(scheds),
+                softl=agg["softl"][:10], soft_traces={x["tr"]: agg["all_lines"].get(x["tr"], []) for x in agg["softl"][:3]}, cov=sorted(agg["cov"]), samples=samples, n_sched=len(scs), n_generated=len(scheds),
                 vec_info=vec_info, wall=time.time() - t0, t_design=t_design, t_drive=agg.get("t_drive", 0), t_judge=agg.get("t_judge", 0))
 
 
